@@ -343,7 +343,7 @@ theorem firstSome3 {β : Type} (f g h : Unit → Option β) (r : β)
 
 /-- QuadricPlaneConverter: a simple quadric without second-order terms is 1/‖(d,e,f)‖ times
     its plane -/
-theorem sqToPlane_quadric (d e f g : ℝ) (hn : 0 < d * d + e * e + f * f) (p : Vec3 ℝ) :
+theorem sqToPlane_quadric (d e f g : ℝ) (_hn : 0 < d * d + e * e + f * f) (p : Vec3 ℝ) :
     (sqToPlane d e f g).quadric p
       = (1 / Real.sqrt (d * d + e * e + f * f))
         * (Surface.simpleQuadric 0 0 0 d e f g).quadric p := by
@@ -442,7 +442,7 @@ theorem posC_zero {tol : ℝ} (h0 : 0 < tol) : posC tol 0 = 0 := by
   unfold posC; simp [h0]
 
 theorem count21 {tol x y z : ℝ} (h0 : 0 < tol)
-    (hp : posC tol x + posC tol y + posC tol z = 2) (hn : negC tol x + negC tol y + negC tol z = 1)
+    (hp : posC tol x + posC tol y + posC tol z = 2) (_hn : negC tol x + negC tol y + negC tol z = 1)
     (hx : x < 0) : 0 < y ∧ 0 < z := by
   have := pos_neg_le tol x; have := pos_neg_le tol y; have := pos_neg_le tol z
   have hpx := posC_of_neg (tol := tol) hx
@@ -814,42 +814,34 @@ theorem perturb_plane_normal (tol : ℝ) (h0 : 0 ≤ tol) (n : Vec3 ℝ) (d nf :
               + |(n.z - zeroSnap tol n.z) * p.z| := by gcongr; exact abs_add_le _ _
       _ ≤ _ := by nlinarith
 
-theorem snap_fst (tol v : ℝ) :
-    (if (Num.ne v (@OfNat.ofNat ℝ 0 (Num.instOfNat 0)) && softZero tol v) = true
-      then ((@OfNat.ofNat ℝ 0 (Num.instOfNat 0)), true) else (v, false)).1 = zeroSnap tol v := by
-  unfold zeroSnap
-  by_cases hs : softZero tol v = true
-  · by_cases hv : v = 0
-    · subst hv
-      split <;> simp [hs, NumR.lit0]
-    · have hne : Num.ne v (@OfNat.ofNat ℝ 0 (Num.instOfNat 0)) = true := by
-        unfold Num.ne
-        rw [NumR.lit0]
-        have : Num.eq v 0 = false := (NumR.eq_real_false v 0).mpr hv
-        rw [this]; rfl
-      simp [hne, hs]
-  · simp [hs]
+theorem snap_close (c : Prop) [Decidable c] (v z0 tol : ℝ) (hz : z0 = 0) (h0 : 0 ≤ tol)
+    (hc : c → |v| < tol) : |v - (if c then (z0, true) else (v, false)).1| ≤ tol := by
+  split
+  · next h => subst hz; rw [sub_zero]; exact le_of_lt (hc h)
+  · rw [sub_self, abs_zero]; exact h0
 
-/-- ConeAligned origin snap: the step returns the cone about the ZeroSnapper'ed origin, and the
-    surface function moves by at most the stated bound -/
+theorem softZero_lt {tol v : ℝ} (h : softZero tol v = true) : |v| < tol := by
+  unfold softZero at h; num_simp at h; exact h
+
+/-- ConeAligned origin snap: the step returns the cone about an origin o' that is componentwise
+    within tol of the old one, and the surface function moves by at most the stated bound -/
 theorem perturb_coneAligned (tol : ℝ) (h0 : 0 ≤ tol) (sense : Sense) (t : Axis) (o : Vec3 ℝ)
     (tsq : ℝ) (sense' : Sense) (s' : Surface ℝ)
     (h : simplifyStep tol sense (.coneAligned t o tsq) = some (sense', s')) :
-    sense' = sense
-    ∧ s' = .coneAligned t ⟨zeroSnap tol o.x, zeroSnap tol o.y, zeroSnap tol o.z⟩ tsq
-    ∧ ∀ p : Vec3 ℝ,
+    sense' = sense ∧ ∃ o' : Vec3 ℝ, s' = .coneAligned t o' tsq
+      ∧ |o.x - o'.x| ≤ tol ∧ |o.y - o'.y| ≤ tol ∧ |o.z - o'.z| ≤ tol
+      ∧ ∀ p : Vec3 ℝ,
         |s'.quadric p - (Surface.coneAligned t o tsq).quadric p|
-          ≤ |tsq| * (tol * (2 * |p.ax t - (⟨zeroSnap tol o.x, zeroSnap tol o.y, zeroSnap tol o.z⟩ : Vec3 ℝ).ax t| + tol))
-            + tol * (2 * |p.ax t.U - (⟨zeroSnap tol o.x, zeroSnap tol o.y, zeroSnap tol o.z⟩ : Vec3 ℝ).ax t.U| + tol)
-            + tol * (2 * |p.ax t.V - (⟨zeroSnap tol o.x, zeroSnap tol o.y, zeroSnap tol o.z⟩ : Vec3 ℝ).ax t.V| + tol) := by
-  simp only [simplifyStep] at h
-  split at h
-  · obtain ⟨rfl, hs⟩ := some_pair_inj h
-    simp only [snap_fst] at hs
-    subst hs
-    refine ⟨rfl, rfl, fun p => ?_⟩
-    exact (perturb_cone_origin t o ⟨zeroSnap tol o.x, zeroSnap tol o.y, zeroSnap tol o.z⟩ tsq tol p
-      (zeroSnap_close tol o.x h0) (zeroSnap_close tol o.y h0) (zeroSnap_close tol o.z h0)).2
-  · simp at h
+          ≤ |tsq| * (tol * (2 * |p.ax t - o'.ax t| + tol))
+            + tol * (2 * |p.ax t.U - o'.ax t.U| + tol) + tol * (2 * |p.ax t.V - o'.ax t.V| + tol) := by
+  simp [simplifyStep] at h
+  obtain ⟨-, rfl, rfl⟩ := h
+  have bx := snap_close (Num.ne o.x 0 = true ∧ softZero tol o.x = true) o.x 0 tol rfl h0
+    (fun hc => softZero_lt hc.2)
+  have by' := snap_close (Num.ne o.y 0 = true ∧ softZero tol o.y = true) o.y 0 tol rfl h0
+    (fun hc => softZero_lt hc.2)
+  have bz := snap_close (Num.ne o.z 0 = true ∧ softZero tol o.z = true) o.z 0 tol rfl h0
+    (fun hc => softZero_lt hc.2)
+  exact ⟨rfl, _, rfl, bx, by', bz, fun p => (perturb_cone_origin t o _ tsq tol p bx by' bz).2⟩
 
 end CelerVerif.Solids
